@@ -91,6 +91,17 @@ CLAIMS = {
         'sync.Pool; harness. State outside pools and the loader (none known; package-level variables are C11/C09) is covered by the histories only.',
    technique='Coq proof over a pool/heap model + source-regenerated site inventory + history exploration against fresh-process results',
    ref='section 9, C10'),
+ 'C11': dict(
+   category='other',
+   text='Decided on the real code by a race-detector build of the harness: goroutines (2/4/16, GOMAXPROCS 1/2/4/16) working on their '
+        'own schema/regex/enum/JSON/number objects, and the six read operations called concurrently on shared schema objects; every '
+        'result is compared with the sequential result and every race report is a violation. Supporting Coq theorems: ErrOnce runs '
+        'its function once and all callers get that result under any arrival order; a pool site that returns the buffer storage is '
+        'overwritten under an interleaving (witness in the thread model); all pool sites of the current tree copy (regenerated table).',
+   note='A Gallina model cannot exhibit a data race on real memory; races are only seen under the schedules the detector happens to run. '
+        'The ownership invariant of the thread model for all schedules is not proved yet (DESIGN).',
+   technique='race detector + sequential-result comparison; Coq model-level theorems as support (technique family applies only to the logic part)',
+   ref='section 9, C11'),
 }
 
 def main():
